@@ -286,7 +286,7 @@ def generate(spec_path, root, std_contracts_path=None):
             fs = entry[2]
             it = repo.find(fs.file, "fn", fs.name, fs.impl)
             fns.append(_emit_fn(unit, fs, it, out, rules))
-    out.add("\n} // verus!\n\n" + "".join(tail_items) + "fn main() {}\n")
+    out.add("\n} // verus!\n\n" + "".join(tail_items) + unit.tail + "fn main() {}\n")
     text = out.text()
     scan = scan_assumptions(text)
     return Generated(unit, text, out, fns, rules, scan)
@@ -317,6 +317,12 @@ def _emit_type(unit, it, out, rules):
                 keep.append("Eq")           # marker trait, sound for a field-less enum with derived PartialEq
             keep.append("Structural")       # field-less enum: `==` is structural equality (what derive(PartialEq) generates)
             _bump(rules, "R5 derive(PartialEq, Eq) on field-less enum re-emitted with Verus' Structural")
+    clone_impl = ""
+    if "Clone" in keep and "<" not in it.text(it.a, it.body[0] if it.body else it.b):
+        # derive(Clone) carries no specification in Verus; re-emit it as the ASSUMED contract "clone() returns an equal value"
+        keep.remove("Clone")
+        clone_impl = ("impl Clone for %s {\n    #[verifier::external_body]\n    fn clone(&self) -> (r: Self)\n        ensures r == *self,\n    { unimplemented!() }\n}\n\n" % it.name)
+        _bump(rules, "R5 derive(Clone) re-emitted as assumed contract clone() == self")
     if keep:
         head += "#[derive(%s)]\n" % ", ".join(keep)
     vis = "pub "
@@ -333,6 +339,8 @@ def _emit_type(unit, it, out, rules):
             c = match_close(toks, k)
             _fields(unit, it, k, c, ed, rules, named=False)
     out.add(head + vis + render(it, it.a, it.b, ed) + "\n\n", origin)
+    if clone_impl:
+        out.add(clone_impl)
     if it.vis != "pub":
         _bump(rules, "R8 visibility widened to pub")
 
